@@ -11,7 +11,7 @@
 import json, os, shutil, subprocess, sys, time
 
 wt, name, props = sys.argv[1], sys.argv[2], sys.argv[3:]
-out = os.path.join(wt, "OUT")
+out = os.path.join(wt, os.environ.get("SEED_OUT", "OUT"))
 dst = os.path.join("/verif/seeded", name)
 
 def sh(cmd, cwd=None, timeout=600):
@@ -26,6 +26,7 @@ def demo_cmd():
 
 report = {"name": name, "properties": props}
 rc, o = sh("git status --porcelain | grep -v '^?? OUT' | grep -v zz_seeded", wt)
+OUTNAME = os.environ.get("SEED_OUT", "OUT")
 if o.strip():
     print("worktree not clean:", o); sys.exit(2)
 dc = demo_cmd()
@@ -34,7 +35,7 @@ if not dc:
 rc, o = sh(dc, wt)
 report["demo_without_change"] = "PASS" if "ok " in o and "FAIL" not in o else "FAIL"
 os.remove(os.path.join(wt, "zz_seeded_demo_test.go"))
-rc, o2 = sh("git apply OUT/patch.diff && go build ./... && go vet . && go test -count=1 . 2>&1 | tail -3", wt)
+rc, o2 = sh("git apply " + OUTNAME + "/patch.diff && go build ./... && go vet . && go test -count=1 . 2>&1 | tail -3", wt)
 report["suite_with_change"] = "PASS" if rc == 0 and "ok " in o2 and "FAIL" not in o2 else "FAIL: " + o2[-500:]
 demo_cmd()
 rc, o3 = sh(dc, wt)
